@@ -62,6 +62,33 @@ def check_wellformed(groups, text, ctx, syntax) -> None:
         alt[i] = 0 if groups[i] is None else None
         if o == obis.Obis(tuple(alt)):
             ctx.violation("C20:equality:different-groups-equal", f"{text!r} == object with group {i} = {alt[i]!r}", case)
+    # coupled differences: an optional group absent vs 0 together with a neighbouring group one higher / lower
+    for i in (1, 4, 5):
+        j = i - 1 if i != 4 else 3
+        for delta in (1, -1):
+            alt = list(groups)
+            alt[i] = 0 if groups[i] is None else None
+            if alt[j] is None:
+                continue
+            alt[j] = alt[j] + delta
+            if 0 <= alt[j] <= 255 and tuple(alt) != tuple(groups):
+                o_alt = obis.Obis(tuple(alt))
+                if o == o_alt or (hash(o) == hash(o_alt) and False):
+                    ctx.violation("C20:equality:different-groups-equal", f"{text!r} == Obis({tuple(alt)!r}) (two neighbouring groups differ)", case)
+                try:
+                    if o == obis_ref.reduced(tuple(alt)):
+                        ctx.violation("C20:equality:different-groups-equal", f"{text!r} == {obis_ref.reduced(tuple(alt))!r} (two neighbouring groups differ)", case)
+                except Exception as ex:
+                    ctx.violation(f"C20:equality:raised:{type(ex).__name__}", f"{text!r} == string raised {ex!r}", case)
+    # comparison with strings is stateless: valid string, malformed string, the same malformed string again (and != as well)
+    for bad in ("no obis here", "1-0:", ""):
+        r1 = o == text
+        r2 = o == bad
+        r3 = twin == bad
+        r4 = o != bad
+        if not r1 or r2 or r3 or not r4:
+            ctx.violation("C20:equality:string-comparison-depends-on-history", f"{text!r}: == itself {r1}, == {bad!r} {r2}, equal object == {bad!r} again {r3}, != {bad!r} {r4}", case)
+            break
     if not (o == text):
         ctx.violation("C20:equality:string-not-parsed", f"Obis.from_string({text!r}) != {text!r}", case)
     if o == "no obis here":
